@@ -10,6 +10,31 @@ CLAIMED = {
    "exhaustive bounded enumeration of the value universe (E1), real encoder+decoder executed on every value, component-wise oracle",
    "Every well-formed value of the scalar alphabet and the container universe (quick: ~10^5 values up to depth 3; thorough: ~1.3*10^7 incl. all 1 112 064 Unicode scalar values in 7 string positions, f64 lattices, every database unit and every in-model zone) is encoded to Zinc by the real encoder, decoded by the real decoder and compared component by component. Exhaustive within the stated bounds; small-scope argument beyond them.",
    "Trusts chrono/chrono-tz calendar arithmetic and the harness's own value model (model/v.rs) and universe construction. Values outside the alphabets (longer strings, wider containers) are not explored."),
+ "C02": ("exploration", "DESIGN.md §5 C02",
+   "exhaustive bounded enumeration of the value universe (E1) through all 9 serde_json encoder x decoder combinations and the typed Serialize/Deserialize pairs",
+   "Every well-formed value of Σ ∪ U (as C01; thorough adds all Unicode scalar values in 6 string positions and the f64 lattices) through to_string|to_vec|to_value x from_str|from_slice|from_value for Value and to_string/from_str for 14 typed values; component-wise oracle with absent meta ≡ empty meta; explicit sub-oracles: no finite number changes magnitude, no timestamp changes instant or zone.",
+   "serde_json trusted as JSON text layer; chrono/chrono-tz trusted; harness value model trusted."),
+ "C03": ("fault_enumeration", "DESIGN.md §5 C03",
+   "exhaustive enumeration of damaged inputs and reader fault scripts (E1+E2), every case executed on the real decoders inside isolated child processes with watchdog",
+   "All byte strings <= 2/3 over 256 bytes and <= 4/5 over the token alphabets; every prefix / substitution / deletion / duplication / insertion of grammar documents; token splices; structural damage; nesting depth 1..256, 2^k up to 131072 and 10^5 for 12 patterns on 8 MiB and 2 MiB stacks; all reader scripts (deliver / Interrupted / I/O error / EOF / 1 byte at every read) with <= 2 deviations. Entry points: from_str, Parser::make+parse_value, parse_grid, parse_grid_iterator, serde_json from_str/from_slice/from_value for Value and 13 typed values. Oracle: returns; no panic, abort, stack overflow (child exit status) or hang (6 s watchdog, re-confirmed).",
+   "Termination is decided by a wall-clock watchdog (6 s for microsecond cases). After 3 crashes/hangs in one job the remaining chunks of that job are skipped (the verdict is already decided; evidence then reports exhaustive=false)."),
+ "C04": ("model_checking", "DESIGN.md §5 C04, Appendix A.1",
+   "reference model (independent Zinc reader/writer written from the grammar) + exhaustive deviation-bounded exploration of the writer's choice points (E2); every model trace executed on the implementation",
+   "Direction 1: every value of Σ ∪ U encoded by libhaystack is parsed by the strict reference reader and must denote the value. Direction 2: every spelling the reference writer produces with <= 2 deviations (scalars; unbounded where the spelling space is <= 10^4), <= 1 (container universe) and <= 2 (core containers) over 16 choice-point types is decoded by libhaystack and must give the value. The reference writer->reader identity is checked on every explored spelling.",
+   "The grammar in DESIGN Appendix A.1 is written from memory of the Project Haystack documentation (no network); uncertain constructs are accepted by the reference reader and never written, so they can only cost coverage."),
+ "C06": ("exploration", "DESIGN.md §5 C06",
+   "exhaustive enumeration of RFC 3339 offsets x instants x fraction digits, and of all in-model zones x every offset transition neighbourhood, against an independent calendar calculator",
+   "(i) 105 offsets x 10 instants x 0-9 fraction digits through three constructors: rejected or exactly the instant computed by the harness's own days-from-civil arithmetic; (ii) every in-model zone (590 of 594) x every offset transition 1980-2060 x {t-3601,t-1,t,t+1,t+3599} + lattice through parse_from_rfc3339_with_timezone (UTC and local spelling); (iii) the same timestamps through Zinc and Hayson with 0/3/6/9 fraction digits: same instant, local offset and zone name.",
+   "chrono_tz is the reference for each zone's offsets; in-model zones are computed from the database by exact transition comparison. C API constructors are covered under C17."),
+ "C10": ("exploration", "DESIGN.md §5 C10",
+   "exhaustive enumeration of an ill-formed value universe plus the decoders' image on all short token strings; every encoder/display entry point under catch_unwind",
+   "U_all: 27 hostile strings in every String position, NaN/INF with units, date/time/timestamp extremes, ill-shaped grids, every display tag with every kind, nesting chains of every depth 1..64 over 7 kind patterns, the well-formed universe, and every value either decoder returns for all strings <= 4/5 over the Zinc token alphabet and ~10^4 kind-tagged Hayson documents; through to_zinc_string, typed ToZinc, serde_json to_string/to_vec/to_value, Display, Debug, Dict::dis, dict_to_dis.",
+   "Timestamps within two days of chrono's representable limits are excluded (chrono itself panics computing their local time). Display is driven through write!."),
+ "C11": ("model_checking", "DESIGN.md §5 C11",
+   "exhaustive bounded spelling exploration for re-encode stability + deviation-bounded exploration of reader chunking scripts (E2) + counting reader for laziness, all on the real decoders",
+   "(a) every spelling with <= 1/2 deviations of Σ and a container sample, three corpus files, every accepted single-byte mutant of the small documents (Zinc and Hayson): decode, re-encode, decode (same value incl. grid ver), re-encode (identical text); (b) every reader script delivering all / 1 byte / half / Interrupted per read() with <= 2 deviations: parse_value ≡ from_str and lazy rows ≡ parse_grid rows; (c) 720-2400 grids of 1-3 columns x 1-40 rows: bytes consumed when row i is yielded <= end of the first token after row i + 12.",
+   "12 bytes of lookahead slack derived from the lexer design (1 scanner byte + <= 10 peeked bytes + CR LF)."),
+
  "C12": ("exploration", "DESIGN.md §5 C12",
    "exhaustive enumeration of all ordered pairs and triples of a near-collision pool (E1); every law evaluated on the real PartialEq/Hash/Ord/PartialOrd impls",
    "All |Π|² pairs and |Π|³ triples of a pool built for near-collisions (±0, same magnitude under different/absent units, Refs differing in dis, same payload under different kinds, dict/list/grid neighbours, equal instants in different zones, nested copies) are checked against reflexivity, symmetry, transitivity, clone, eq⇒hash (two hashers), antisymmetry and transitivity of cmp, cmp=Equal⇔==, partial⇒total, and the collection consequences (HashSet/BTreeSet/BTreeMap/sort+dedup see exactly the ==-classes), for Value and 15 typed values, plus Eq/Hash/PartialOrd over all database units.",
